@@ -306,7 +306,7 @@ def run_o3(case):
         def mm():
             holder['f'] = M.open_memmap(fmt, p, c)
             return M.observe(holder['f'], fmt)
-        st, o = _guard(mm)
+        st, o = _guard(mm, case.get('guard', 3.0))
         obs['mm'] = dict(status=st, view=o if st == 'ok' else None, err=o if st == 'raises' else None)
         if st == 'ok' and cut is None:
             p2 = os.path.join(d, 'g.bin')
@@ -435,9 +435,13 @@ def is_th(case):
     return case.get('content', {}).get('fmt') in M.TH_FORMATS and not case.get('sweep')
 
 
+def is_wind(case):
+    return case.get('content', {}).get('fmt') == 'wind' and not case.get('sweep')
+
+
 def is_layered(case):
     """formats whose Memmap reader is modelled in Coq through the generic driver run_o3"""
-    return is_o3(case) or is_th(case)
+    return is_o3(case) or is_th(case) or is_wind(case)
 
 
 def th_shape_ok(c, view):
@@ -480,13 +484,47 @@ def th_term(case, obs, suffix=''):
         C.cbool(not th_py_check(case, obs)), C.cbool(wr.get('status') == 'ok'), C.zlist(wr.get('words') or []))
 
 
+def w_py_check(case, obs):
+    c = case['content']
+    why = []
+    mm = obs.get('mm') or {}
+    if mm.get('status') == 'ok':
+        v = mm['view']
+        dm = v['dims']
+
+        def ok4(arr):
+            return (len(arr) == dm.get('TSTEP') and all(len(t) == dm.get('LAY') and all(len(lay) == c['ny'] and all(len(r) == c['nx'] for r in lay)
+                                                                                         for lay in t) for t in arr))
+        if list(v['data'].keys()) != ['U', 'V'] or not ok4(v['data']['U']) or not ok4(v['data']['V']):
+            why.append('variable names or array shapes are not those of a wind file on a %dx%d grid' % (c['ny'], c['nx']))
+    return why
+
+
+def w_term(case, obs, suffix=''):
+    """Coq term `WD (WCase ...)` of Corr/C09.v (WD8 for Corr/C08.v); status 0 = read, 1 = raised, 2 = did not return"""
+    c = case['content']
+    mm = obs['mm']
+    ok = mm['status'] == 'ok'
+    v, tf = M.coq_wview(c, mm['view'] if ok else None)
+    wr = obs.get('wr') or {}
+    tbl = sorted(set((L.f32_word(float(s['hhmm'])), s['hhmm']) for s in c['steps']))
+    return '(WD%s (WCase %s %s %s %s %d %d %s %s %s %s %s))' % (
+        suffix, M.coq_wind(c), C.zlist([s['hhmm'] for s in c['steps']]), M.coq_pairs(tbl), C.zlist(M.encode(c)), obs['cut'],
+        {'ok': 0, 'raises': 1, 'timeout': 2}[mm['status']], v, tf,
+        C.cbool(not w_py_check(case, obs)), C.cbool(wr.get('status') == 'ok'), C.zlist(wr.get('words') or []))
+
+
 def layered_term(case, obs, suffix=''):
     if is_o3(case):
         return o3_term(case, obs, 'OD' + suffix)
+    if is_wind(case):
+        return w_term(case, obs, suffix)
     return th_term(case, obs, suffix)
 
 
 def layered_py_check(case, obs):
+    if is_wind(case):
+        return w_py_check(case, obs)
     return o3_py_check(case, obs) if is_o3(case) else th_py_check(case, obs)
 
 
